@@ -13,10 +13,17 @@ Section Scope.
 
   (* the same state with other callers suspended below it *)
   Definition with_frames (s : st) (fr : list (env (F:=F))) : st :=
-    mkSt (s_env s) (s_out s) fr (s_temps s) (s_heap s) (s_statics s) (s_ctx s).
+    mkSt (s_env s) (s_out s) fr (s_temps s) (s_heap s) (s_statics s) (s_ctx s) (s_dcount s).
 
   Theorem read_ignores_callers x (s : st) fr : read_name cls depth x (with_frames s fr) = read_name cls depth x s.
   Proof. reflexivity. Qed.
+
+  Lemma set_field_frames l f v (s s' : st) : set_field s l f v = Ok s' -> s_frames s' = s_frames s /\ s_env s' = s_env s.
+  Proof.
+    unfold set_field. destruct (get_obj s l) as [o|]; [|discriminate].
+    destruct (sc_find f (o_fields o)); [|destruct (o_dead o); discriminate].
+    intro H; inversion H; split; reflexivity.
+  Qed.
 
   Theorem write_never_touches_callers x v (s s' : st) :
     write_name cls depth x v s = Ok s' -> s_frames s' = s_frames s.
@@ -24,9 +31,7 @@ Section Scope.
     unfold write_name.
     destruct (lookup x (s_env s)); [intro H; inversion H; reflexivity|].
     match goal with |- context [match ?m with Some l => set_field s l x v | None => _ end] => destruct m as [l|] end.
-    - unfold set_field. destruct (get_obj s l) as [o|]; [|discriminate].
-      destruct (o_dead o); [discriminate|]. destruct (sc_find x (o_fields o)); [|discriminate].
-      intro H; inversion H; reflexivity.
+    - intro H. now apply set_field_frames in H.
     - destruct (static_owner cls depth (s_ctx s) x); [|discriminate].
       destruct (st_find _ _ _); [|discriminate]. intro H; inversion H; reflexivity.
   Qed.
@@ -41,9 +46,7 @@ Section Scope.
     destruct (lookup x (s_env s)) eqn:L; [intro H; inversion H; left; repeat split; congruence|].
     intro H. right. split; [reflexivity|].
     match type of H with context [match ?m with Some l => set_field s l x v | None => _ end] => destruct m as [l|] end.
-    - unfold set_field in H. destruct (get_obj s l) as [o|]; [|discriminate].
-      destruct (o_dead o); [discriminate|]. destruct (sc_find x (o_fields o)); [|discriminate].
-      inversion H; reflexivity.
+    - now apply set_field_frames in H.
     - destruct (static_owner cls depth (s_ctx s) x); [|discriminate].
       destruct (st_find _ _ _); [|discriminate]. inversion H; reflexivity.
   Qed.
